@@ -9,6 +9,7 @@ import string as _string
 WORDS = ['a', 'b', 'ab', 'abc', 'Admin', 'admin', 'ADMIN', 'read', 'write', 'Read', 'x', 'xy', 'user:1', 'éa', 'Éa',
          'д', 'Д', 'ß', 'α', 'Α', '中文', 'İx', 'i̇x', 'ıx', 'Ix', 'ix', 'İstanbul', 'i̇stanbul', 'aİ', 'straße', 'STRASSE', 'xİ', '٣', '3', '', ' ', 'a b', 'a.b', 'a*b', 'a+',
          '%', '_', 'a%', 'x_y', 'line\n', 'tab\t', 'books', 'book', 'get', 'GET', '10.0.0.1', '10.0.0.0/8']
+NON_NFC = ['Zoe\u0308', 'e\u0301', '\u2126', 'A\u030a', 'cafe\u0301']          # not NFC-normalised: combining marks, the OHM SIGN
 CHARS = list('abcABCxyz019 .*+?|()[]{}\\^$<>%_-/:,') + ['\n', 'é', 'É', 'д', 'Д', 'ß', 'α', 'Α', '中', 'İ', 'ı', '٣']
 KEYS = ['name', 'role', 'id', 'ip', 'k', 'K', 'stars', 'méthode', '']
 
